@@ -48,9 +48,9 @@ TEXT = {
     },
     "C18": {
         "level": "Machine-checked: SelectAll returns the ready index of minimal rotation distance; the server's get_next_call is exactly that scan over `receive would complete now`; for every sequence of consecutive scans over an unchanged set, "
-                 "starting right after A was served, if B is ready at every scan and not served then A is not served again (no double service); a ready connection is served within n-1 other calls per phase, hence within connections x (transitions+1) across renumberings. "
+                 "starting right after A was served, if B is ready at every scan and not served then A is not served again (no double service); a ready connection is served within n-1 other calls per phase, hence within connections x (transitions+1) across renumberings; the same two statements are proved of whole stretches of the server loop itself (the successive winners of consecutive Server::run iterations over an unchanged connection list ARE that scan sequence: C18_run_is_winners, C18_server_no_double_service, C18_server_phase_bound, C18_positions_are_connections). "
                  "Differential run incl. flooder schedules where everything is buffered up front, with a direct fairness oracle on the real server's service order.",
-        "design_ref": "DESIGN.md §5 C18", "note": RX_NOTE + " Rotation: Zlink/Model/Select.lean mirrors select_all.rs; tie of whole server runs to scan sequences is by correspondence of the global service order.",
+        "design_ref": "DESIGN.md §5 C18", "note": RX_NOTE + " Rotation: Zlink/Model/Select.lean mirrors select_all.rs; the server loop's service order is proved to be the scan sequence (C18_run_is_winners); the tie of the model to the real loop is the correspondence of the global service order.",
         "technique": "Lean 4 proof (rotation-distance potential argument) on hand-written models; model-vs-implementation correspondence of the global service order plus a fairness oracle",
     },
     "C11": {
